@@ -176,6 +176,26 @@ def body(prop, args, seed, t0):
     # (a CRASH of a self-check – e.g. a translated function no longer exists in the source – is not a verdict by itself: with broken
     #  obligations the run goes on to the failing-input search; with every obligation discharged it is a fault of the machinery)
     tie = {}
+
+    def tie_broken(which, bads, label="translator disagreement"):
+        """A regenerated definition that does not behave like the Python function it was translated from: the translation tie of this
+        property is not established on this tree.  On the unchanged tree this never happens (it would be a fault of the translator);
+        on a changed tree it means the change left what the translator renders faithfully, so – like a tie theorem that stops
+        building – it is a BROKEN OBLIGATION: the run goes on to the correspondence and the failing-input search and ends in a
+        VIOLATION (with the failing input when the oracle finds one, `no-failing-input-found` otherwise), never in 'no verdict'."""
+        for b in bads[:10]:
+            print(f"  {label}:", str(b)[:600])
+        print(f"  note: the translation self-check '{which}' disagrees with the Python code on {len(bads)} input(s): broken tie, going on to the failing-input search")
+        broken.append({"file": "translation self-check", "line": 0, "decl": f"translation-tie:{which}",
+                       "message": f"regenerated definition differs from the Python function on {len(bads)} seeded input(s), first: {str(bads[0])[:300]}"})
+        tie.setdefault("self_check_disagreements", {})[which] = len(bads)
+
+    def prelude_broken(bads):
+        for b in bads[:10]:
+            print("  prelude disagreement (OQ/Exec/Py.lean vs CPython):", str(b)[:400])
+        print(f"INTERNAL-ERROR property={prop} (the Lean prelude of the translator differs from CPython; no verdict)")
+        return 2
+
     try:
         # ---- 2b. the translator and its Python prelude are themselves compared with CPython / the Python functions
         from harness import tables as _tables
@@ -187,11 +207,10 @@ def body(prop, args, seed, t0):
                    "translated_functions": [f"{fn.__module__.split('quantum.')[-1]}.{fn.__name__} -> Translated.{nm}"
                                             for fn, nm, *_rest in _tables._specs()[prop]],
                    "untranslatable_now": untranslatable}
-            if bad1 or bad2:
-                for b in (bad1 + bad2)[:10]:
-                    print("  translator/prelude disagreement:", b)
-                print(f"INTERNAL-ERROR property={prop} (the Python->Lean translation misrenders the code; no verdict)")
-                return 2
+            if bad1:
+                return prelude_broken(bad1)
+            if bad2:
+                tie_broken("translated_check", bad2)
 
         # --- T3: translated definitions over OPAQUE objects (rules / operations / circuits; methods, constructors and operators are
         # parameters) are instantiated with stand-ins on both sides and compared with the Python functions they came from
@@ -204,10 +223,7 @@ def body(prop, args, seed, t0):
                 tie["translated_opaque_not_compared"] = dropped3
                 tie["untranslatable_now"] = list(tie.get("untranslatable_now", [])) + untr3
                 if bad3:
-                    for b in bad3[:10]:
-                        print("  translator disagreement (opaque objects):", b)
-                    print(f"INTERNAL-ERROR property={prop} (the Python->Lean translation misrenders the code; no verdict)")
-                    return 2
+                    tie_broken("translated_check_opaque", bad3, "translator disagreement (opaque objects)")
         # --- T3 end
 
         # --- T5: the METHOD translator (harness/translate_state.py): the translated runner classes of C14 are run against the real
@@ -222,10 +238,7 @@ def body(prop, args, seed, t0):
             if note3:
                 tie["translated_runner_classes_note"] = note3
             if bad3:
-                for b in bad3[:10]:
-                    print("  method-translator disagreement:", b)
-                print(f"INTERNAL-ERROR property={prop} (the Python->Lean translation of the runner classes misrenders the code; no verdict)")
-                return 2
+                tie_broken("runners_check", bad3, "method-translator disagreement")
         # --- T5 end
 
         # --- T1: the gate-CLASS translator (harness/translate_cls.py -> OQ/Generated/TranslatedGates.lean, tied to the models of
@@ -237,10 +250,7 @@ def body(prop, args, seed, t0):
                         "translated_gate_classes": "circuits/_gates.py: MatrixFactoryGate, ControlledGate, Dagger, Exponential, Power "
                                                    "-> OQ.Generated.TranslatedGates (harness/translate_cls.py)"})
             if bad3:
-                for b in bad3[:10]:
-                    print("  class-translator disagreement:", b)
-                print(f"INTERNAL-ERROR property={prop} (the Python->Lean translation of the gate classes misrenders the code; no verdict)")
-                return 2
+                tie_broken("gates_check", bad3, "class-translator disagreement")
         # --- T1 end
 
         # --- T6: the translated definitions of harness/tables_t6.py (sort keys, `translate_expression` family, `reduction`: C19; the
@@ -257,11 +267,10 @@ def body(prop, args, seed, t0):
             tie["translated_t6_vs_python_function"] = n6
             tie["translated_functions"] = list(tie.get("translated_functions", [])) + listed6
             tie["untranslatable_now"] = list(tie.get("untranslatable_now", [])) + untr6
-            if bad1 or bad6:
-                for b in (bad1 + bad6)[:10]:
-                    print("  translator/prelude disagreement:", b)
-                print(f"INTERNAL-ERROR property={prop} (the Python->Lean translation misrenders the code; no verdict)")
-                return 2
+            if bad1:
+                return prelude_broken(bad1)
+            if bad6:
+                tie_broken("translated_check_t6", bad6)
         # --- T6 end
 
         # --- T9: the translated definitions of harness/tables_t9.py (dictionary forms of operators / arrays / ExpectationValues /
@@ -278,11 +287,10 @@ def body(prop, args, seed, t0):
             tie["translated_t9_not_compared"] = len(_t9.DROPPED)
             tie["translated_functions"] = list(tie.get("translated_functions", [])) + listed9
             tie["untranslatable_now"] = list(tie.get("untranslatable_now", [])) + untr9
-            if bad1 or bad9:
-                for b in (bad1 + bad9)[:10]:
-                    print("  translator/prelude disagreement:", b)
-                print(f"INTERNAL-ERROR property={prop} (the Python->Lean translation misrenders the code; no verdict)")
-                return 2
+            if bad1:
+                return prelude_broken(bad1)
+            if bad9:
+                tie_broken("translated_check_t9", bad9)
         # --- T9 end
 
         # --- T10: the symbolic-expression translator of the built-in gate matrices (harness/translate_t10.py -> OQ/Generated/
@@ -295,20 +303,21 @@ def body(prop, args, seed, t0):
             tie["translated_functions"] = list(tie.get("translated_functions", [])) + listed10
             tie["untranslatable_now"] = list(tie.get("untranslatable_now", [])) + untr10
             if bad10:
-                for b in bad10[:10]:
-                    print("  translator disagreement (gate matrices):", b[:400])
-                print(f"INTERNAL-ERROR property={prop} (the Python->Lean translation of the gate matrices misrenders the code; no verdict)")
-                return 2
+                tie_broken("translated_check_t10", bad10, "translator disagreement (gate matrices)")
         # --- T10 end
 
+    except Timeout:
+        raise
     except Exception as e:  # noqa: BLE001
         import traceback
-        tie = dict(tie, self_check_crashed=f"{type(e).__name__}: {e}"[:300])
+        tie["self_check_crashed"] = f"{type(e).__name__}: {e}"[:300]
         if not broken:
+            # the tie could not be re-established on this tree although every theorem still builds (the self-check calls something
+            # of the library that changed): a broken tie like a disagreement – never on the unchanged tree
             traceback.print_exc()
-            print(f"INTERNAL-ERROR property={prop} (a self-check of the translation machinery crashed although every obligation checks; no verdict)")
-            return 2
-        print(f"  note: a translator self-check could not run ({type(e).__name__}: {str(e)[:160]}); {len(broken)} obligation(s) are broken, going on")
+            tie_broken("self-check crashed", [f"{type(e).__name__}: {str(e)[:300]}"], "translator self-check crashed")
+        else:
+            print(f"  note: a translator self-check could not run ({type(e).__name__}: {str(e)[:160]}); {len(broken)} obligation(s) are broken, going on")
 
     # --- T11: definitions rendered by harness/translate_t11.py (raising externals, conditionally assigned variables, closures:
     # estimation C15, `time_evolution_for_term` C16, `U3GateToRotation.production` C18) are instantiated with stand-ins on both sides and
@@ -318,19 +327,18 @@ def body(prop, args, seed, t0):
         if any(p == prop for p, _s in _t11.t11_specs()) and (build_ok or common.lake_build(["oqdriver"])[0]):
             try:
                 n11, bad11, untr11, dropped11 = _t11.run(seed, only=prop)
+            except Timeout:
+                raise
             except Exception as e:  # noqa: BLE001
                 if not broken:
-                    raise
+                    tie_broken("self-check crashed (T11)", [f"{type(e).__name__}: {str(e)[:300]}"], "translator self-check crashed")
                 n11, bad11, untr11, dropped11 = 0, [], [f"self-check crashed: {type(e).__name__}: {str(e)[:120]}"], 0
             tie["translated_t11_vs_python_function"] = n11
             tie["translated_t11_not_compared"] = dropped11
             tie["untranslatable_now"] = list(tie.get("untranslatable_now", [])) + untr11
             tie["translated_functions"] = list(tie.get("translated_functions", []))
             if bad11:
-                for b in bad11[:10]:
-                    print("  translator disagreement (T11, opaque objects with raising externals):", b)
-                print(f"INTERNAL-ERROR property={prop} (the Python->Lean translation misrenders the code; no verdict)")
-                return 2
+                tie_broken("translated_check_t11", bad11, "translator disagreement (T11, opaque objects with raising externals)")
     # --- T11 end
 
     # --- T4: translated dictionary-valued definitions (abstract numeric values, exceptions with their class) are run at Rat through
@@ -344,10 +352,7 @@ def body(prop, args, seed, t0):
             tie["translated_t4_agreeing_only_up_to_float_rounding"] = len(_tc4.ROUNDED)
             tie["untranslatable_now"] = list(tie.get("untranslatable_now", [])) + untr4
             if bad4:
-                for b in bad4[:10]:
-                    print("  translator disagreement (dictionary-valued code):", b)
-                print(f"INTERNAL-ERROR property={prop} (the Python->Lean translation misrenders the code; no verdict)")
-                return 2
+                tie_broken("translated_check_t4", bad4, "translator disagreement (dictionary-valued code)")
     # --- T4 end
 
     # --- T14: the translated shot-bookkeeping definitions (`scale_and_discretize`, `get_measurements_representing_distribution`; numpy /
@@ -359,17 +364,16 @@ def body(prop, args, seed, t0):
         if any(p == prop for p, _s in _tc14.t14_specs()) and (build_ok or common.lake_build(["oqdriver"])[0]):
             try:
                 n14, bad14, untr14 = _tc14.run(seed, only=prop)
+            except Timeout:
+                raise
             except Exception as e:  # noqa: BLE001
                 if not broken:
-                    raise
+                    tie_broken("self-check crashed (T14)", [f"{type(e).__name__}: {str(e)[:300]}"], "translator self-check crashed")
                 n14, bad14, untr14 = 0, [], [f"self-check could not run: {type(e).__name__}: {str(e)[:120]}"]
             tie["translated_t14_vs_python_function"] = n14
             tie["untranslatable_now"] = list(tie.get("untranslatable_now", [])) + untr14
             if bad14:
-                for b in bad14[:10]:
-                    print("  translator disagreement (shot bookkeeping):", b)
-                print(f"INTERNAL-ERROR property={prop} (the Python->Lean translation misrenders the code; no verdict)")
-                return 2
+                tie_broken("translated_check_t14", bad14, "translator disagreement (shot bookkeeping)")
     # --- T14 end
 
     # --- T7: the translated CLASSES PauliTerm / PauliSum (harness/translate_t7.py -> OQ/Generated/TranslatedC03.lean, tied to the model of
@@ -395,19 +399,21 @@ def body(prop, args, seed, t0):
             raise
         except Exception as e:  # noqa: BLE001  (same policy as for the self-checks above)
             import traceback
-            tie = dict(tie, self_check_crashed=f"{type(e).__name__}: {e}"[:300])
+            tie["self_check_crashed"] = f"{type(e).__name__}: {e}"[:300]
             if not broken:
                 traceback.print_exc()
-                print(f"INTERNAL-ERROR property={prop} (a self-check of the translation machinery crashed although every obligation checks; no verdict)")
-                return 2
-            print(f"  note: a translator self-check could not run ({type(e).__name__}: {str(e)[:160]}); {len(broken)} obligation(s) are broken, going on")
+                tie_broken("self-check crashed (T7)", [f"{type(e).__name__}: {str(e)[:300]}"], "translator self-check crashed")
+            else:
+                print(f"  note: a translator self-check could not run ({type(e).__name__}: {str(e)[:160]}); {len(broken)} obligation(s) are broken, going on")
             bad1, bad7 = [], []
-        if bad1 or bad7:
-            for b in (bad1 + bad7)[:10]:
-                print("  translator/prelude disagreement (Pauli classes):", b[:600])
-            print(f"INTERNAL-ERROR property={prop} (the Python->Lean translation misrenders the code; no verdict)")
-            return 2
+        if bad1:
+            return prelude_broken(bad1)
+        if bad7:
+            tie_broken("translated_check_t7", bad7, "translator disagreement (Pauli classes)")
     # --- T7 end
+
+    if any(b["decl"].startswith("translation-tie:") for b in broken):
+        discharged = min(discharged, max(obligations - 1, 0))
 
     # ---- 3. correspondence + oracle
     if args.replay:
